@@ -114,6 +114,14 @@ pub struct Hist<'a, C: MlsConfig> {
     pub rep: Report,
     pub mk: &'a dyn Fn(&Setup, &Handles, mls_rs::identity::SigningIdentity, mls_rs::crypto::SignatureSecretKey) -> Client<C>,
     pub next_name: usize,
+    /// capability defect of the next client created by `new_member` (see `Setup::bad_caps`)
+    pub pending_bad_caps: u8,
+    /// identities of clients whose key packages are invalid by construction
+    pub bad_kp_ids: Vec<Vec<u8>>,
+    /// (member, epoch): members that sent an Update with an HPKE key they do not own (offender kind 7) in that epoch
+    pub forgers: Vec<(usize, u64)>,
+    /// forgers whose forged Update was committed: they cannot process that commit (their own doing) and drop out of the run
+    pub zombies: Vec<usize>,
     pub tree_qa: Option<&'a mut QA>,
     pub filter_qa: Option<&'a mut QA>,
     /// outsiders that generated a key package not yet used: (member index, kp message)
@@ -230,6 +238,7 @@ impl<'a, C: MlsConfig> Hist<'a, C> {
             s.sqlite = self.rng.chance(1, 2);
         }
         s.suite = self.prof.suite;
+        s.bad_caps = std::mem::take(&mut self.pending_bad_caps);
         if self.prof.mixed_providers {
             // only providers that ship the group's suite
             let ok: Vec<u8> = (0..3u8)
@@ -273,7 +282,7 @@ impl<'a, C: MlsConfig> Hist<'a, C> {
             // re-joining (known finding F14, exercised by the directed scenario of C07), so the random
             // histories only bring back members that never persisted the group
             .filter(|&i| self.w.members[i].group.is_none() && !self.w.members[i].wrote && !self.kps.iter().any(|(j, _)| *j == i))
-            .filter(|&i| !self.w.rejected.contains(&self.w.members[i].identity))
+            .filter(|&i| !self.w.rejected.contains(&self.w.members[i].identity) && self.w.members[i].setup.bad_caps == 0 && !self.zombies.contains(&i))
             .collect()
     }
 
@@ -361,7 +370,7 @@ impl<'a, C: MlsConfig> Hist<'a, C> {
         };
         // payload validity: the application refuses the identity of this key package (credential rejected by the identity provider)
         let ok = match mls_rs::verif::proposal::leaf_keys(prop) {
-            Some((ident, _, _)) if kind == "add" && self.w.rejected.contains(&ident) => 0,
+            Some((ident, _, _)) if kind == "add" && (self.w.rejected.contains(&ident) || self.bad_kp_ids.contains(&ident)) => 0,
             _ => 1,
         };
         format!("{id},{kind},{snd},{src},{target},{}:{}:{},{ok},{pskid}", leaf.0, leaf.1, leaf.2)
@@ -509,6 +518,8 @@ impl<'a, C: MlsConfig> Hist<'a, C> {
         let mut offenders = 0u64;
         let mut revoke_after_delivery: Vec<Vec<u8>> = vec![];
         let mut reinit_with_update = false;
+        // (member, key package) of `add-existing` offenders: if the same commit removes that member the Add is legitimate
+        let mut existing_adds: Vec<usize> = vec![];
         if self.rng.chance(self.prof.p_offend, 1000) {
             for _ in 0..self.rng.range(1, 3) {
                 let others: Vec<usize> = active.iter().copied().filter(|&i| i != c_pre).collect();
@@ -571,6 +582,7 @@ impl<'a, C: MlsConfig> Hist<'a, C> {
                         let t = *self.rng.pick(&active);
                         let Some(kp) = self.gen_kp(t) else { continue };
                         note = format!("OFFEND add-existing {}", self.w.members[t].setup.name);
+                        existing_adds.push(t);
                         self.w.with_group(p, |g| g.propose_add(kp, vec![]))
                     }
                     5 => {
@@ -580,6 +592,34 @@ impl<'a, C: MlsConfig> Hist<'a, C> {
                         let Some(bl) = blank else { continue };
                         note = format!("OFFEND remove-nonexisting {bl}");
                         self.w.with_group(p, |g| g.propose_remove(bl, vec![]))
+                    }
+                    6 => {
+                        // payload-invalid Add: the key package's leaf lists a default proposal / extension type among its
+                        // capabilities (RFC 9420 7.2: MUST NOT be listed), or its lifetime has expired; the committer drops
+                        // it, by value it is refused
+                        let bad = 1 + self.rng.below(3) as u8;
+                        self.pending_bad_caps = bad;
+                        let o = self.new_member();
+                        let r = self.w.members[o].client.verif_generate_key_package_unchecked(
+                            |c| match bad {
+                                1 => c.proposals.push(mls_rs::group::proposal::ProposalType::ADD),
+                                2 => c.extensions.push(mls_rs::extension::ExtensionType::RATCHET_TREE),
+                                _ => {}
+                            },
+                            // 3: a lifetime that ended long ago (the committer validates Adds against the current time)
+                            if bad == 3 { Some((1_000, 2_000)) } else { None },
+                        );
+                        let Ok(kp) = r else { continue };
+                        self.rep.cover.insert(format!("bad-kp:{bad}"));
+                        let oid = self.w.members[o].identity.clone();
+                        self.bad_kp_ids.push(oid);
+                        let mut gc = self.w.group(c_pre).clone();
+                        let bv = gc.commit_builder().add_member(kp.clone()).and_then(|b| b.build());
+                        if bv.is_ok() {
+                            self.fail("C10", format!("an invalid key package ({}) was committed by value", ["capabilities list a default proposal type", "capabilities list a default extension type", "lifetime expired"][bad as usize - 1]));
+                        }
+                        note = format!("OFFEND add-default-listed {}", self.w.members[o].setup.name);
+                        self.w.with_group(p, |g| g.propose_add(kp, vec![]))
                     }
                     9 => {
                         // a by-reference re-init next to a by-reference Update of another member: the re-init must be dropped
@@ -653,6 +693,7 @@ impl<'a, C: MlsConfig> Hist<'a, C> {
                         let (Some(k2), Some(kc)) = (key_of(self, x2), key_of(self, c_pre)) else { continue };
                         for (x, k, tag) in [(x1, k2, "peer"), (x2, kc, "committer")] {
                             updaters.push(x);
+                            self.forgers.push((x, epoch));
                             self.w.crypto_log.lock().unwrap().force_kem_pub = Some(k);
                             let r = self.w.with_group(x, |g| g.propose_update(vec![]));
                             self.w.crypto_log.lock().unwrap().force_kem_pub = None;
@@ -1039,6 +1080,14 @@ impl<'a, C: MlsConfig> Hist<'a, C> {
                     CommitEffect::Removed { .. } => now_removed.push(i),
                     CommitEffect::ReInit(_) => {}
                 },
+                _ if self.forgers.contains(&(i, epoch)) && matches!(&r, Res::Err(e) if e == "CryptoProviderError") => {
+                    // the forged Update of this member (an HPKE key it has no secret key for) became committable (the owner of
+                    // the key was removed in the same commit): the forger cannot open the path secret sent to that key
+                    self.w.log(format!("forger {n} cannot process the commit that applies its forged update; it drops out"));
+                    self.rep.cover.insert("forger-dropped".into());
+                    self.zombies.push(i);
+                    now_removed.push(i);
+                }
                 _ => {
                     self.fail("C10", format!("{n} rejected the commit m{cmi} built by {cname} ({detail}): {}", r.s()));
                 }
@@ -1081,7 +1130,36 @@ impl<'a, C: MlsConfig> Hist<'a, C> {
                 joiners.push(*o);
             } else if applied_committer.iter().filter(|k| **k == "add").count() >= all_adds.len() {
                 // every add was applied, so every joiner must be able to join
+                if std::env::var("VHARNESS_DEBUG").is_ok() {
+                    let ids: Vec<String> = self.w.group(c).roster().members_iter().map(|m| format!("{}@{}", String::from_utf8_lossy(&m.signing_identity.credential.as_basic().map(|b| b.identifier.clone()).unwrap_or_default()), m.index)).collect();
+                    eprintln!("DEBUG join failure {oname}: roster={ids:?} rejected={:?}", self.w.members[*o].h.idp.rejected.lock().unwrap());
+                }
                 self.fail("C07", format!("{oname} could not join through the welcome of m{cmi}: {last}"));
+            }
+        }
+        // a member whose fresh key package was proposed as `add-existing` and who was removed by this very commit was re-added by it
+        // (remove + add of one identity is a legitimate commit): it comes back through the Welcome
+        for t in existing_adds {
+            if self.w.members[t].group.is_some() || self.zombies.contains(&t) {
+                continue;
+            }
+            if self.w.members[t].wrote {
+                // its storage still holds prior epochs of this group (known finding F14, exercised by C07's directed scenario):
+                // it stays away; its identity is in the tree, so it is never used as an outsider again
+                self.zombies.push(t);
+                continue;
+            }
+            let with_tree = !self.w.members[c].setup.tree_ext;
+            for wmsg in &out.welcome_messages {
+                let tree = if with_tree { Some(tree_of(&tree_bytes)) } else { None };
+                if let Ok((g, _)) = self.w.members[t].client.join_group(tree, wmsg, None) {
+                    let tname = self.w.members[t].setup.name.clone();
+                    self.w.log(format!("rejoin {tname} via m{cmi} (removed and re-added by the same commit) -> ok"));
+                    self.rep.cover.insert("removed-and-readded".into());
+                    self.w.members[t].group = Some(g);
+                    joiners.push(t);
+                    break;
+                }
             }
         }
         self.kps.clear();
@@ -1584,6 +1662,10 @@ pub fn run_histories(o: &Opts, prof: Profile, n: u64, stem: &str, focus: &[&'sta
             rep: Report::default(),
             mk: &mk,
             next_name: 0,
+            pending_bad_caps: 0,
+            bad_kp_ids: vec![],
+            forgers: vec![],
+            zombies: vec![],
             tree_qa: Some(&mut qa),
             filter_qa: Some(&mut fqa),
             tap: None,
